@@ -218,6 +218,30 @@ def _c19():
 PROPS["C19"] = _c19()
 
 # ---------------------------------------------------------------------------------------------
+# C01 (partial: the client's UDP reply routing, code extracted from the rusty-penguin crate)
+# ---------------------------------------------------------------------------------------------
+def _c01():
+    hs = [H("c01_udp_reply_routing", tier="quick", profiles=("dev", "rel"), note="two local UDP clients, any addresses / listeners / modes, any id draws"),
+          H("c01_udp_reply_unknown_id", tier="quick", profiles=("dev", "rel"), note="one client registered, reply for any other non-zero id"),
+          H("c01_udp_prune_consistent", tier="quick", profiles=("dev", "rel"), note="two clients of one listener, symbolic elapsed times up to twice the timeout, optional refresh of the first")]
+    return dict(
+        kind="ext", ext_dir="ext1", module="c01", shims=["bytes", "tokio", "tracing", "tracing-attributes", "parking_lot_core", "parking_lot", "hashbrown"],
+        native_shims=[], harnesses=hs,
+        bounds=dict(clients="2 local UDP clients (IPv4 socket addresses, all 2^48 values each), 2 listener sockets", id_draws="at most 3 RNG draws per harness (sequences needing more are outside the bound)",
+                    payload="1-2 octets (symbolic)", time="elapsed times 0 .. 2 x UDP_PRUNE_TIMEOUT in milliseconds (symbolic)", maps="hashbrown model, capacity 3"),
+        outside=["EVERYTHING ELSE of C01: TCP entry points (fixed remotes, SOCKS4/4a/5 CONNECT, HTTP CONNECT), half-close propagation, target refusal, the server side (forwarder, per-flow UDP sockets), the real sockets and runtime; "
+                 "the stream/datagram/bridge/codec ingredients are decided under C02, C05, C09, C11, C13, C18", "IPv6 client addresses (the maps only compare addresses for equality)", "more than two clients / three id draws",
+                 "std::collections::HashMap is replaced by the association-list model (lookups by equality only); the real HashMap's hashing is not executed"],
+        assumptions=["two listener sockets are bound to different local addresses", "a listener is either a SOCKS5 relay or a plain UDP remote (its mode does not change)",
+                     "the extraction patterns in lib/vdriver.py match (otherwise the build fails and the check is INCONCLUSIVE)"],
+        trusted=[SHIM_TRUST["hashbrown"], SHIM_TRUST["parking_lot"], "environment stubs in harness/ext1/src/c01.rs (recording UDP socket / stdout, virtual clock, solver-chosen RNG draws)", "item extraction in lib/vdriver.py::extract_udp_maps"],
+        explanation="The text of HandlerResources::add_udp_client / prune_udp_clients, ClientIdMaps and ClientIdMapEntry is extracted from the current penguin/src/client/mod.rs and executed symbolically against recording stubs: where does a reply for a client id go.",
+    )
+
+
+PROPS["C01"] = _c01()
+
+# ---------------------------------------------------------------------------------------------
 # in-crate (penguin-mux) properties
 # ---------------------------------------------------------------------------------------------
 MUX_TRUST = [SHIM_TRUST[k] for k in ("bytes", "tokio", "hashbrown", "parking_lot", "tracing")] + [
@@ -233,8 +257,9 @@ def harness_names(fname, prefix):
 
 def _c10():
     names = harness_names("task_h.rs", "c10_")
-    thorough_only = {"c10_connect_requested", "c10_ack_est_readclosed", "c10_reset_bindreq", "c10_reset_est_full", "c10_finish_est_readclosed", "c10_push_zero",
-                     "c10_push_bindreq", "c10_bind_disabled_est", "c10_bind_enabled_zero", "c10_datagram_zero"}
+    # every cell of the reaction table is a quick instance (10-20 s each): seed C10c (a duplicate Finish on a
+    # read-closed flow taking the table lock twice) was first missed because its cell was thorough-only
+    thorough_only = {"c10_connect_requested"}
     heavy = lambda n: n.startswith("c10_connect_")   # process_frame(Connect): nested coroutine, ~17 GB
     hs = [H(n, tier="thorough" if (n in thorough_only or heavy(n)) else "quick", profiles=("dev", "rel"), unwindset=vec_loops(2),
             mem_gb=(26 if heavy(n) else None), timeout=(2400 if heavy(n) else None),
@@ -431,7 +456,6 @@ PROPS["C15"] = mux_prop(
 # ---------------------------------------------------------------------------------------------
 WIP = "check not built yet in this session (work in progress; see DESIGN.md §4 for the plan)"
 NOT_APPLICABLE = {
-    "C01": "end-to-end behaviour over real TCP/UDP/Unix sockets, the tokio multi-thread runtime, hyper and the rusty-penguin binary crate (rustls/aws-lc FFI in its closure): none of it can be compiled by Kani or encoded by hand within reach; its codec-level ingredients are decided under C02, C09, C11, C13, C18",
     "C17": "certificate-path validation, name matching and client-certificate verification happen inside rustls/webpki/aws-lc-rs (C and assembly behind FFI); the repository's part is a four-arm match that only has meaning through those libraries — nothing a solver can encode",
 }
 for _p in []:
@@ -441,6 +465,12 @@ for _p in []:
 EXTRA_CHECKS = {"C14": ("gate-smt", "./check C14 --tier quick", "./check C14 --tier thorough")}
 
 MANIFEST_TEXT = {
+    "C01": dict(
+        design_ref="DESIGN.md §4-C01",
+        level_text="PARTIAL claim: one clause of C01 only - 'every reply is delivered to exactly the local client that originated the exchange, from the address that client sent to (and in SOCKS5 mode when it is a SOCKS5 association), also when several local clients are active at once'. The rusty-penguin crate cannot be compiled by Kani, so the TEXT of the items that decide where a UDP reply goes (HandlerResources::add_udp_client, prune_udp_clients, ClientIdMaps incl. send_datagram_reply, ClientIdMapEntry) is extracted from the current penguin/src/client/mod.rs on every run and executed symbolically (Kani/CBMC) against recording stubs for the UDP socket, stdout, the clock and the RNG: for ALL pairs of client addresses, listeners, modes and ALL client-id draws, ids identify (client address, listener) pairs, a reply for a client's id leaves through that client's listener socket to that client's address in that listener's mode with the unmodified payload and never goes to stdout or to another client; a reply for an id nobody holds produces nothing; an entry lives exactly UDP_PRUNE_TIMEOUT after its last use and pruning keeps the two maps consistent. This found a genuine defect on the pinned tree: the id is drawn with next_available_key, which can return 0 - the id reserved for stdio - so with probability 2^-32 per new client its replies were written to the client's stdout instead of being sent back (fixed). Everything else of C01 (TCP entry points, half-close, refusal, the server side, real sockets) is NOT covered here; its stream, datagram, bridge and codec ingredients are decided under C02, C05, C09, C11, C13, C18.",
+        level_note="Trusted: Kani/CBMC; the extraction in lib/vdriver.py (text of the repository's items, visibility keywords added, struct HandlerResources reduced to the field used); the hashbrown model standing in for std::collections::HashMap; the parking_lot model; the recording stubs. Bounds: 2 clients, 2 listeners, 3 id draws, payload <= 2 octets, IPv4 addresses.",
+        technique="bounded symbolic execution (Kani 0.68 / CBMC 6.11 + CaDiCaL, unwinding assertions on) of source text extracted from the current rusty-penguin crate, compiled against recording environment stubs; counterexamples replayed natively against the same text with the real hashbrown / parking_lot / rand",
+    ),
     "C08": dict(
         design_ref="DESIGN.md §4-C08",
         level_text="PARTIAL. Bounded model checking of the real wind_down with a scripted transport, one instance per ingredient (wind_down treats table entries and the outbound queue independently): a table entry of each kind (established with delivered data, pending open, pending bind), two frames queued before the end, the sink's readiness and the close result chosen by the solver, the source ending with end-of-stream, with an error, or staying silent: the future completes; afterwards no flow remains, reads return what was delivered then EOF, writes fail with BrokenPipe, the pending open resolves with None and the pending bind with false, the WebSocket is closed; after a local drop the queued frames were handed to the sink in order before close, after any other end nothing is transmitted; the sender future (the branch Task::start selects on) polled once and then cancelled leaves every queued frame in the sink or in the queue; later API calls report Closed. When the connection ended for a non-local reason and the source stays silent, wind_down must still complete - the pinned tree waited for the dead peer for ever (repaired). The combined scenario (three flows, two queued frames) runs in the thorough tier. NOT run (beyond reach): a frame still in flight inside the source, the whole Task::start future through a keepalive timeout",
